@@ -13,12 +13,25 @@ Tie B: correspondence of Model/SymFill (interpreter of the extracted loops,
   * histories: request orders of the ten keys (all ordered 2-key prefixes +
     sampled tails) on tagged gdown/gup/gdet: branch taken, completion order,
     final key order of `data` and every stored array against the Lean model.
+  * the same histories on the C01-style table model (Model/SymCache.lean, the
+    model of the all-histories theorems of Props/C15b.lean): the PROVENANCE of
+    every returned value - branch(arg,..) with the arguments in the real look-up
+    order - must agree;
+  * interleaved objects: several live objects of different dimension / flag /
+    metric in one process with randomly interleaved requests, each compared
+    with the model of its own history (state shared between instances).
 Search oracle (independent of model and code): textbook tensors from exact
 rational jets of the metric at random rational points (Fractions), for random
-non-diagonal coordinate-dependent metrics, both flags, several request orders.
+non-diagonal coordinate-dependent metrics, both flags, several request orders,
+also on interleaved live objects; gdown*gup = 1 and gdet = Leibniz determinant
+are checked SYMBOLICALLY on every metric (the only facts about sympy's inv/det
+the theorems use), including non-diagonal 4-D metrics.
 """
+import ast
 import contextlib
 import itertools
+import os
+import re
 from fractions import Fraction
 
 from lib import fw
@@ -40,7 +53,27 @@ THEOREMS = ["AurelVerif.C15." + t for t in (
     "symbolic_core_correct",
     "riemann_down_request_order_independent", "ricci_down_request_order_independent",
     "stored_flag_independent")]
-FILES = ["AurelVerif/Props/C15.lean", "AurelVerif/Lemmas/SymCore.lean", "AurelVerif/Lemmas/SymFill.lean",
+MODULE_B = "AurelVerif.Props.C15b"
+THEOREMS_B = ["AurelVerif.C15." + t for t in (
+    # A. fill loops, every dimension n
+    "fill_all_n_Gamma_udd", "fill_all_n_Gamma_down", "fill_all_n_Riemann_uddd",
+    "fill_all_n_Riemann_down_cached", "fill_all_n_Riemann_down_direct",
+    "fill_all_n_Ricci_down_cached", "fill_all_n_Ricci_down_direct", "fill_all_n_Einstein_down",
+    "fill_all_n_any_values", "symbolic_core_correct_all_n",
+    # B. gup / gdet from the single equation gdown * gup = 1
+    "metric_of_right_inverse", "gup_determined", "gdet_identities", "gdet_jacobi",
+    "symbolic_core_correct_of_right_inverse",
+    # C. all request histories
+    "branch_coherence", "request_history_transparent", "request_order_and_flag_independent",
+    "history_never_raises", "every_history_returns_textbook", "symbolic_no_recursion_no_keyerror",
+    "table_numbering",
+    # D. the simplify flag
+    "lines_flag_independent", "gamma_half_outside_flag", "symbolic_core_correct_unsimplified",
+    "stored_flag_independent_all_n")]
+FILES = ["AurelVerif/Props/C15b.lean", "AurelVerif/Lemmas/C15FillHoare.lean", "AurelVerif/Lemmas/C15FillAll.lean",
+         "AurelVerif/Lemmas/C15CoreAll.lean", "AurelVerif/Lemmas/C15Inverse.lean", "AurelVerif/Lemmas/C15History.lean",
+         "AurelVerif/Lemmas/C15Flag.lean", "AurelVerif/Lemmas/C15Jacobi.lean", "AurelVerif/Model/SymCache.lean",
+         "AurelVerif/Props/C15.lean", "AurelVerif/Lemmas/SymCore.lean", "AurelVerif/Lemmas/SymFill.lean",
          "AurelVerif/Lemmas/SymTensors.lean", "AurelVerif/Spec/SymTensors.lean",
          "AurelVerif/Model/SymFill.lean", "AurelVerif/Gen/SymFormulas.lean", "AurelVerif/Gen/SymLoops.lean",
          "Driver/C15.lean"]
@@ -329,25 +362,46 @@ def corr_isolated(ctx, fills):
 
 
 def observed_class(rec):
+    """subclass of the real class that records, for every method call: key,
+    whether the guard key was cached on entry, the returned array, a snapshot
+    of `data`, and the keys looked up through `self[...]` in order of first
+    look-up (the real look-up order, for the provenance comparison)"""
     mod = core_module()
     base = mod.AurelCoreSymbolic
+    stack = []
 
     class Obs(base):
-        pass
+        def __getitem__(self, k):
+            if stack and k not in stack[-1]:
+                stack[-1].append(k)
+            return base.__getitem__(self, k)
 
     def mk(key):
         orig = getattr(base, key)
 
         def f(self):
             had = guard_present(key, self.data)
-            out = orig(self)
-            rec.append((key, had, out, dict(self.data)))
+            stack.append([])
+            try:
+                out = orig(self)
+            finally:
+                looked = stack.pop()
+            rec.append((key, had, out, dict(self.data), looked))
             return out
         f.__name__ = key
         return f
     for key in KEYS:
         setattr(Obs, key, mk(key))
     return Obs
+
+
+def provenance(rec, init_keys, requests):
+    """provenance term of the value returned for every request, from what the
+    REAL run did: `branch(arg,..)` with the arguments in real look-up order"""
+    prov = {k: "<%s>" % k for k in init_keys}
+    for (key, had, _out, _snap, looked) in rec:      # rec is in completion order: arguments are complete
+        prov[key] = "%s(%s)" % (branch_name(key, had), ",".join(prov.get(d, "?" + d) for d in looked))
+    return [prov.get(k, "?" + k) for k in requests]
 
 
 def history_orders(ctx, npairs, nrandom, maxtail=8):
@@ -374,8 +428,14 @@ def history_orders(ctx, npairs, nrandom, maxtail=8):
     return out
 
 
-def run_history(n, flag, order, prepopulate):
-    """run the real class; returns (rec, final key order)"""
+INIT_TAGGED = ("gdown", "gup", "gdet")
+
+
+def make_instance(n, flag, prepopulate):
+    """a fresh observed instance; tagged inputs are stored by ITEM ASSIGNMENT into
+    the `data` dict the constructor made (as a user does: `obj.data["gdown"] = g`),
+    never by replacing the dict — so a `data` dict shared between instances
+    (mutable default argument, class attribute) stays visible"""
     sp = sym()
     rec = []
     Obs = observed_class(rec)
@@ -383,53 +443,149 @@ def run_history(n, flag, order, prepopulate):
     inst = Obs(list(coords), verbose=False, simplify=flag)
     if prepopulate:
         tags = tagged_inputs(n, coords)
-        inst.data = {k: tags[k] for k in ("gdown", "gup", "gdet")}
+        for k in INIT_TAGGED:
+            inst.data[k] = tags[k]
+    return inst, coords, rec
+
+
+def run_history(n, flag, order, prepopulate):
+    """run the real class; returns (coords, rec, final key order)"""
+    inst, coords, rec = make_instance(n, flag, prepopulate)
     for k in order:
         inst[k]
     return coords, rec, list(inst.data.keys())
 
 
+def model_lines(order, pre):
+    init = ",".join(INIT_TAGGED) if pre else "-"
+    return ["order %s %s" % (init, ",".join(order)), "hist %s %s" % (init, ",".join(order))]
+
+
+def compare_history(ctx, fills, tag, n, flag, order, pre, coords, rec, keys, out_order, out_hist, stats):
+    """one real history against the two Lean models (Model/SymFill `request` and
+    the C01-style table of Model/SymCache); returns None or the first difference"""
+    assert out_order.startswith("ok cache="), out_order
+    mcache, mlog = out_order[len("ok cache="):].split(" log=")
+    mcache = [k for k in mcache.split(",") if k]
+    mlog = [tuple(x.split(":")) for x in mlog.split(",") if x]
+    plog = [(key, branch_name(key, had)) for (key, had, _, _, _) in rec]
+    if keys != mcache:
+        return "%s: data keys %s, model %s" % (tag, keys, mcache)
+    if plog != mlog:
+        return "%s: completion log %s, model %s" % (tag, plog, mlog)
+    # provenance of every returned value (table model of the all-histories theorem)
+    if not out_hist.startswith("ok "):
+        return "%s: table model raised: %s" % (tag, out_hist)
+    mprov = out_hist[3:].split(" ")
+    pprov = provenance(rec, INIT_TAGGED if pre else (), order)
+    stats["prov"] = stats.get("prov", 0) + len(pprov)
+    if mprov != pprov:
+        i = next((i for i, (x, y) in enumerate(zip(mprov, pprov)) if x != y), min(len(mprov), len(pprov)))
+        return "%s: provenance of request %d (%s): code %s, table model %s" % (
+            tag, i, order[i] if i < len(order) else "?", (pprov + ["-"])[i][:120], (mprov + ["-"])[i][:120])
+    for (key, had, stored, snap, _) in rec:
+        b = branch_name(key, had)
+        stats["branches"][b] = stats["branches"].get(b, 0) + 1
+        if b not in PROGS:
+            continue
+        data = dict(snap)
+        if not had and key in GUARDS:
+            data.pop(GUARDS[key], None)
+        d = checked_fill(key, had, coords, flag, data, stored, fills[(b, n)], ctx.rng)
+        stats["nfill"] += 1
+        if d:
+            return "%s: %s: %s" % (tag, b, d)
+    return None
+
+
 def corr_histories(ctx, fills, plan):
-    """plan: list of (n, flag, order, prepopulate); Lean `order` lines are run in one batch"""
+    """plan: list of (n, flag, order, prepopulate); the Lean lines are run in one batch"""
     lines = []
     for (n, flag, order, pre) in plan:
-        lines.append("order %s %s" % ("gdown,gup,gdet" if pre else "-", ",".join(order)))
+        lines += model_lines(order, pre)
     outs = ctx.run_driver("Driver/C15.lean", lines)
-    bad, nfill, branches = [], 0, {}
-    for (n, flag, order, pre), out in zip(plan, outs):
+    bad, stats = [], {"nfill": 0, "branches": {}}
+    for i, (n, flag, order, pre) in enumerate(plan):
         tag = "n=%d simplify=%s %s order=%s" % (n, flag, "tagged" if pre else "default-metric", ",".join(order))
         coords, rec, keys = run_history(n, flag, order, pre)
-        assert out.startswith("ok cache="), out
-        mcache, mlog = out[len("ok cache="):].split(" log=")
-        mcache = [k for k in mcache.split(",") if k]
-        mlog = [tuple(x.split(":")) for x in mlog.split(",") if x]
-        plog = [(key, branch_name(key, had)) for (key, had, _, _) in rec]
-        if keys != mcache:
-            bad.append("%s: data keys %s, model %s" % (tag, keys, mcache))
-            continue
-        if plog != mlog:
-            bad.append("%s: completion log %s, model %s" % (tag, plog, mlog))
-            continue
-        for (key, had, stored, snap) in rec:
-            b = branch_name(key, had)
-            branches[b] = branches.get(b, 0) + 1
-            if b not in PROGS:
-                continue
-            data = dict(snap)
-            if not had and key in GUARDS:
-                data.pop(GUARDS[key], None)
-            d = checked_fill(key, had, coords, flag, data, stored, fills[(b, n)], ctx.rng)
-            nfill += 1
-            if d:
-                bad.append("%s: %s: %s" % (tag, b, d))
-                break
+        d = compare_history(ctx, fills, tag, n, flag, order, pre, coords, rec, keys, outs[2 * i], outs[2 * i + 1], stats)
+        if d:
+            bad.append(d)
     ctx.log("histories done")
     ctx.cov["correspondence_histories"] = len(plan)
-    ctx.cov["correspondence_history_arrays_checked"] = nfill
-    ctx.cov["correspondence_branches_hit"] = branches
+    ctx.cov["correspondence_history_arrays_checked"] = stats["nfill"]
+    ctx.cov["correspondence_history_provenances_checked"] = stats.get("prov", 0)
+    ctx.cov["correspondence_branches_hit"] = stats["branches"]
     ctx.sample({"history_case": lines[0], "model_output": outs[0][:200]})
-    ctx.obligation("correspondence: request histories (branch taken, completion order, data key order, every stored array) vs Model/SymFill (%d histories, %d arrays)"
-                   % (len(plan), nfill), not bad, "; ".join(bad[:4]), kind="correspondence")
+    ctx.sample({"history_case": lines[1], "model_output": outs[1][:300]})
+    ctx.obligation("correspondence: request histories (branch taken, completion order, data key order, provenance of every returned value, every stored array) vs Model/SymFill + Model/SymCache (%d histories, %d arrays, %d provenances)"
+                   % (len(plan), stats["nfill"], stats.get("prov", 0)), not bad, "; ".join(bad[:4]), kind="correspondence")
+
+
+def corr_interleaved(ctx, fills, nrounds):
+    """several live objects in ONE process — different dimensions, flags, tagged and
+    default metrics — whose requests are interleaved at random; every object is then
+    compared with the model of ITS OWN history.  Detects state shared between
+    instances (mutable default argument, class-level dict, module-level cache)."""
+    rng = ctx.rng
+    bad, stats, nobj, nreq = [], {"nfill": 0, "branches": {}}, 0, 0
+    for rnd in range(nrounds):
+        configs = [(2, False, True), (3, False, True), (2, False, True), (3, False, False), (4, False, False),
+                   (3, True, False), (2, rnd == 0, True)]
+        rng.shuffle(configs)
+        configs = configs[:rng.randint(4, len(configs))]
+        objs = []
+        for (n, flag, pre) in configs:          # all constructed first, then populated, then used
+            sp = sym()
+            rec = []
+            Obs = observed_class(rec)
+            coords = sp.symbols(COORD_NAMES[:n])
+            objs.append({"n": n, "flag": flag, "pre": pre, "rec": rec, "coords": coords,
+                         "inst": Obs(list(coords), verbose=False, simplify=flag), "done": []})
+        for o in objs:
+            if o["pre"]:
+                tags = tagged_inputs(o["n"], o["coords"])
+                o["tags"] = tags
+                for k in INIT_TAGGED:
+                    o["inst"].data[k] = tags[k]
+            order = list(KEYS)
+            rng.shuffle(order)
+            # a flag=True object on tagged inputs: short history (sympy.simplify on undefined functions is slow)
+            o["todo"] = order[:3] if (o["flag"] and o["pre"]) else order[:rng.randint(3, len(order))]
+        pending = [o for o in objs if o["todo"]]
+        while pending:
+            o = rng.choice(pending)
+            k = o["todo"].pop(0)
+            o["inst"][k]
+            o["done"].append(k)
+            nreq += 1
+            if not o["todo"]:
+                pending.remove(o)
+        lines = []
+        for o in objs:
+            lines += model_lines(o["done"], o["pre"])
+        outs = ctx.run_driver("Driver/C15.lean", lines)
+        for i, o in enumerate(objs):
+            nobj += 1
+            tag = "interleaved round %d object %d/%d (n=%d simplify=%s %s) order=%s" % (
+                rnd, i, len(objs), o["n"], o["flag"], "tagged" if o["pre"] else "default-metric", ",".join(o["done"]))
+            inst = o["inst"]
+            for j, p in enumerate(objs):
+                if j != i and p["inst"].data is inst.data:
+                    bad.append("%s: `data` is the same dict object as object %d's" % (tag, j))
+            if inst.dim != o["n"] or list(inst.coords) != list(o["coords"]) or inst.simplify != o["flag"]:
+                bad.append("%s: dim/coords/simplify changed" % tag)
+            if o["pre"] and any(inst.data.get(k) is not o["tags"][k] for k in INIT_TAGGED):
+                bad.append("%s: an input entry of `data` was replaced" % tag)
+            d = compare_history(ctx, fills, tag, o["n"], o["flag"], o["done"], o["pre"], o["coords"], o["rec"],
+                                list(inst.data.keys()), outs[2 * i], outs[2 * i + 1], stats)
+            if d:
+                bad.append(d)
+    ctx.cov["correspondence_interleaved_objects"] = nobj
+    ctx.cov["correspondence_interleaved_requests"] = nreq
+    ctx.cov["correspondence_interleaved_arrays_checked"] = stats["nfill"]
+    ctx.obligation("correspondence: %d live objects (n = 2,3,4; both flags; tagged and default metrics) with randomly interleaved requests, each against the model of its own history (%d requests, %d arrays)"
+                   % (nobj, nreq, stats["nfill"]), not bad, "; ".join(bad[:4]), kind="correspondence")
 
 
 def correspondence(ctx):
@@ -479,6 +635,11 @@ def correspondence(ctx):
         corr_histories(ctx, fills, plan)
     except Exception as ex:  # noqa
         ctx.obligation("correspondence: histories", False, "harness failed: %r" % ex, kind="correspondence")
+    try:
+        corr_interleaved(ctx, fills, 4 if thorough else 2)
+    except Exception as ex:  # noqa
+        ctx.obligation("correspondence: interleaved objects", False, "harness failed: %r" % ex, kind="correspondence")
+    ctx.log("interleaved objects done")
 
 
 # ------------------------------------------------------------------ search oracle
@@ -573,24 +734,115 @@ SEARCH_ORDERS = [
 ]
 
 
-def check_case(ctx, name, cnames, entries, flag, order, pt_s, report=True):
-    """run the real class on one metric / flag / request order and compare all
-    ten keys, every component, with the textbook values at the point.
-    Returns the list of failures (dicts)."""
+def leibniz_det(g):
+    """the textbook determinant: sum over permutations (independent of sympy's det)"""
+    sp = sym()
+    from sympy.combinatorics.permutations import Permutation
+    n = g.shape[0]
+    tot = 0
+    for perm in itertools.permutations(range(n)):
+        term = Permutation(list(perm)).signature()
+        for i in range(n):
+            term = term * g[perm[i], i]
+        tot += term
+    return sp.expand(tot)
+
+
+def check_inverse_equation(ctx, name, cnames, entries, flag, g, data, report=True):
+    """THE equation the Lean theorems need of sympy (`RightInverse`): gdown * gup = 1,
+    checked symbolically (not at a point), and gdet = the Leibniz determinant.
+    Returns the list of failures."""
+    sp = sym()
+    n = g.shape[0]
+    fails = []
+    if "gup" in data:
+        ctx.count("oracle_inverse_equation_checks")
+        gup = sp.Matrix(data["gup"])
+        resid = (g * gup - sp.eye(n)).applyfunc(lambda e: sp.simplify(exact(e)))
+        if resid != sp.zeros(n, n):
+            ij = next((a, b) for a in range(n) for b in range(n) if resid[a, b] != 0)
+            fails.append({"key": "gup", "site": "gup", "index": list(ij), "observed": "(gdown*gup - 1)%s = %s" % (list(ij), str(resid[ij])[:80]),
+                          "expected": "0"})
+        if gup.shape != (n, n):
+            fails.append({"key": "gup", "site": "gup", "index": [], "observed": "shape %s" % (gup.shape,), "expected": str((n, n))})
+    if "gdet" in data:
+        ctx.count("oracle_determinant_checks")
+        d = sp.simplify(exact(data["gdet"]) - leibniz_det(g))
+        if d != 0:
+            fails.append({"key": "gdet", "site": "gdet", "index": [], "observed": str(data["gdet"])[:80], "expected": str(leibniz_det(g))[:80]})
+    if report:
+        for f0 in fails:
+            tag = "%s-symbolic simplify=%s" % (f0["site"], flag)
+            seen = ctx.cov.setdefault("violating_sites", [])
+            if tag in seen or len(ctx.violations) >= 4:
+                continue
+            seen.append(tag)
+            ctx.violation("%s of metric %s with simplify=%s is not the inverse / determinant of gdown (symbolically): %s, expected %s"
+                          % (f0["key"], entries, flag, f0["observed"], f0["expected"]),
+                          {"kind": "input", "metric_name": name, "coords": cnames, "metric": entries, "simplify": flag,
+                           "order": [f0["key"]], "point": {c: "%d/%d" % (i + 2, 2 * i + 5) for i, c in enumerate(cnames)}, "key": f0["key"], "index": f0["index"],
+                           "observed": f0["observed"], "expected": f0["expected"], "n_bad_components": 1, "symbolic": True},
+                          {"site": f0["site"] + "-symbolic", "simplify": flag})
+    return fails
+
+
+def start_case(cnames, entries, flag, pt_s):
+    """a live object of the real class holding one metric"""
     sp = sym()
     mod = core_module()
     coords = [sp.Symbol(c) for c in cnames]
     n = len(coords)
     g = sp.Matrix(n, n, lambda a, b: sp.sympify(entries[a][b], locals={c: s for c, s in zip(cnames, coords)}))
     pt = {s: sp.Rational(pt_s[c]) for c, s in zip(cnames, coords)}
-    ref = textbook_at(g, coords, pt)
     inst = mod.AurelCoreSymbolic(list(coords), verbose=False, simplify=flag)
     inst.data["gdown"] = g
-    had = {}
+    return {"inst": inst, "g": g, "coords": coords, "pt": pt, "had": {}, "cnames": cnames, "entries": entries,
+            "flag": flag, "pt_s": pt_s, "done": []}
+
+
+def step_case(case, k):
+    inst = case["inst"]
+    if k in GUARDS and k not in inst.data:
+        case["had"][k] = guard_present(k, inst.data)
+    inst[k]
+    case["done"].append(k)
+
+
+def check_case(ctx, name, cnames, entries, flag, order, pt_s, report=True):
+    """run the real class on one metric / flag / request order and compare all
+    ten keys, every component, with the textbook values at the point; gup and
+    gdet also symbolically.  Returns the list of failures (dicts)."""
+    case = start_case(cnames, entries, flag, pt_s)
     for k in order:
-        if k in GUARDS and k not in inst.data:
-            had[k] = guard_present(k, inst.data)
-        inst[k]
+        step_case(case, k)
+    return finish_case(ctx, name, case, report)
+
+
+def check_interleaved(ctx, name, specs, report=True):
+    """several live objects (one per spec = (cnames, entries, flag, order, point)) in one
+    process, requests interleaved at random; each compared with its own textbook values"""
+    cases = [start_case(cn, ent, flag, pt) for (cn, ent, flag, order, pt) in specs]
+    todo = [(c, list(order)) for c, (_, _, _, order, _) in zip(cases, specs)]
+    while todo:
+        c, rest = ctx.rng.choice(todo)
+        step_case(c, rest.pop(0))
+        if not rest:
+            todo.remove((c, rest))
+    fails = []
+    for i, c in enumerate(cases):
+        others = [d for d in cases if d is not c]
+        if any(d["inst"].data is c["inst"].data for d in others):
+            ctx.count("oracle_shared_data_dicts")
+        fails += finish_case(ctx, "%s[object %d of %d interleaved]" % (name, i, len(cases)), c, report)
+    return fails
+
+
+def finish_case(ctx, name, case, report=True):
+    sp = sym()
+    inst, g, coords, pt, had = case["inst"], case["g"], case["coords"], case["pt"], case["had"]
+    cnames, entries, flag, pt_s, order = case["cnames"], case["entries"], case["flag"], case["pt_s"], case["done"]
+    n = len(coords)
+    ref = textbook_at(g, coords, pt)
     fails = []
     for k in KEYS:
         if k not in inst.data:
@@ -627,11 +879,16 @@ def check_case(ctx, name, cnames, entries, flag, order, pt_s, report=True):
             seen.append(tag)
             ctx.violation(
                 "%s%s of metric %s at %s with simplify=%s after requests %s: code %s, textbook %s (%d component(s) of this key differ)"
-                % (f0["key"], f0["index"], entries, pt_s, flag, order[:order.index(f0["key"]) + 1], f0["observed"], f0["expected"], len(fs)),
+                % (f0["key"], f0["index"], entries, pt_s, flag, order[:order.index(f0["key"]) + 1] if f0["key"] in order else order,
+                   f0["observed"], f0["expected"], len(fs)),
                 {"kind": "input", "metric_name": name, "coords": cnames, "metric": entries, "simplify": flag,
                  "order": order, "point": pt_s, "key": f0["key"], "index": f0["index"],
                  "observed": f0["observed"], "expected": f0["expected"], "n_bad_components": len(fs)},
                 {"site": site, "simplify": flag})
+    if inst.data.get("gdown") is g:
+        fails += check_inverse_equation(ctx, name, cnames, entries, flag, g, inst.data, report)
+    elif "gdown" in inst.data:
+        fails.append({"key": "gdown", "site": "gdown", "index": [], "observed": "replaced", "expected": "the metric stored by the user"})
     return fails
 
 
@@ -692,19 +949,66 @@ def search(ctx, deep):
             break
         if len(ctx.samples) < 10:
             ctx.sample({"oracle_metric": ent, "point": pt, "simplify": flag})
+    # several live objects with different metrics / dimensions, requests interleaved
+    if len(ctx.violations) < 4:
+        cm = corpus_metrics()
+        specs = [(cm[0][1], cm[0][2], False, SEARCH_ORDERS[1], cm[0][3]),
+                 (cm[1][1], cm[1][2], False, SEARCH_ORDERS[0], cm[1][3]),
+                 (cm[2][1], cm[2][2], True, SEARCH_ORDERS[2][:4], cm[2][3]),
+                 (["x", "y", "z"], [["1", "z", "0"], ["z", "1+z**2+x**2", "0"], ["0", "0", "1+y**2"]], False,
+                  SEARCH_ORDERS[3], {"x": "1/2", "y": "-2/3", "z": "3/4"}),
+                 (["t", "x", "y", "z"], [["-1", "x", "0", "0"], ["x", "1", "0", "0"], ["0", "0", "1+t**2", "y"], ["0", "0", "y", "2"]],
+                  False, ["gup", "Gamma_down", "gdet"] + (SEARCH_ORDERS[0][5:] if thorough else []),
+                  {"t": "1/3", "x": "1/2", "y": "-1/4", "z": "2"})]
+        found += len(check_interleaved(ctx, "interleaved", specs))
+        cases += len(specs)
+        for sp_ in specs:
+            note(len(sp_[0]), sp_[2])
+        ctx.cov["oracle_interleaved_objects"] = len(specs)
+    # gup / gdet of non-diagonal 4-D metrics, symbolically (the one equation the theorems need of sympy)
+    for flag in ((False, False, True) if not thorough else (False, False, False, True, True)):
+        if len(ctx.violations) >= 4:
+            break
+        cn = COORD_NAMES[:4]
+        coords = [sp.Symbol(c) for c in cn]
+        while True:
+            g = random_metric(rng, 4, coords, nshear=rng.randint(2, 4), conformal=(not flag and rng.random() < 0.5), linear=flag)
+            if any(g[a, b] != 0 for a in range(4) for b in range(4) if a != b):
+                break
+        ent = [[str(g[a, b]) for b in range(4)] for a in range(4)]
+        case = start_case(cn, ent, flag, {c: "1/2" for c in cn})
+        step_case(case, "gup")
+        step_case(case, "gdet")
+        found += len(check_inverse_equation(ctx, "random-4d", cn, ent, flag, case["g"], case["inst"].data))
+        ctx.count("oracle_inverse_equation_4d_nondiagonal")
     ctx.cov["oracle_cases"] = cases
     ctx.cov["oracle_distribution"] = dist
     return found
 
 
+def simplify_sites(ctx):
+    """every read of `self.simplify` in coresymbolic.py is an `if simplify` of a generated
+    line (covered by `lines_flag_independent`) or the one in `__getitem__` (`post`)"""
+    src = open(os.path.join(fw.SRC, "coresymbolic.py")).read()
+    n_src = sum(1 for nd in ast.walk(ast.parse(src))
+                if isinstance(nd, ast.Attribute) and nd.attr == "simplify" and isinstance(nd.ctx, ast.Load)
+                and isinstance(nd.value, ast.Name) and nd.value.id == "self")
+    gen = open(os.path.join(fw.LEAN, "AurelVerif", "Gen", "SymFormulas.lean")).read()
+    n_gen = len(re.findall(r"\(if simplify then", gen))
+    ctx.cov["simplify_sites_in_source"] = n_src
+    ctx.obligation("every `self.simplify` test of coresymbolic.py is in a generated line or in __getitem__ (%d in the source = %d generated + 1)"
+                   % (n_src, n_gen), n_src == n_gen + 1, "source %d, generated %d" % (n_src, n_gen), kind="translation")
+
+
 def run(ctx):
     ctx.trusted += ["Lean 4.33 kernel; axioms propext, Classical.choice, Quot.sound",
-                    "py2lean/symformulas.py (AST -> formula lines + loop structure; refuses anything unrecognised)",
-                    "Model/SymFill.lean is hand-written; tied to AurelCoreSymbolic by the tagged-input and history correspondence",
-                    "sympy: Matrix.inv / Matrix.det (gup, gdet delegated), sp.diff is a derivation with commuting partials, arithmetic of expressions is a field of characteristic 0",
-                    "sp.simplify returns an expression equal to its argument (hypothesis `∀ x, S x = x` of every theorem)"]
+                    "py2lean/symformulas.py (AST -> formula lines + loop structure + method table; refuses anything unrecognised)",
+                    "Model/SymFill.lean (fill interpreter, request cache) and Model/SymCache.lean (shapes of the C01-style table derived from the regenerated method table) are hand-written; tied to AurelCoreSymbolic by the tagged-input, history (branch, completion order, provenance of every returned value) and interleaved-objects correspondence",
+                    "Lemmas/C15History.lean `leaf`: the hand-written wiring of the generated formula lines and loop programs to the return sites of the table (a wrong wiring makes `branch_coherence` unprovable; key and branch numbering are proven equal to the regenerated table)",
+                    "sympy: sp.diff is a derivation with commuting partials, arithmetic of expressions is a field of characteristic 0; of Matrix.inv only the equation gdown*gup = 1 (checked symbolically by the oracle on every metric it runs, incl. non-diagonal 4-D ones); of Matrix.det that it equals the Leibniz sum (checked symbolically likewise)",
+                    "sp.simplify returns an expression equal to its argument (hypothesis `∀ x, S x = x`; NOT used by the simplify=False theorems)"]
     ctx.assumptions += ["0.5 is modelled as the exact rational 1/2 (sympy Float rounding is not modelled)",
-                        "fill_is_identity is decided for n = 2, 3, 4 (the property's range); formula-line theorems hold for every n",
+                        "the metric is an input stored in `data` by the user (the default metrics of gdown() are particular inputs)",
                         "the derivation hypotheses are shown consistent in Lean only by the zero derivation; real partial derivatives are exercised by the sympy oracle"]
     # 1. regenerate
     try:
@@ -719,12 +1023,15 @@ def run(ctx):
                     "prog": info["progs"]["Riemann_uddd"]["prog"]})
     except Exception as ex:  # noqa
         ctx.obligation("py2lean:symformulas", False, "translation failed: %r" % ex, kind="translation")
+    if not ctx.broken():
+        simplify_sites(ctx)
     # 2-3. prove + audit
     if not ctx.broken():
         ctx.prove(MODULE, THEOREMS)
+        ctx.prove(MODULE_B, THEOREMS_B)
         ctx.forbidden_scan(FILES)
         if ctx.tier == "thorough":
-            ctx.leanchecker([MODULE])
+            ctx.leanchecker([MODULE, MODULE_B])
     ctx.log("proofs done")
     # 4. correspondence
     if not [o for o in ctx.broken() if o["kind"] == "translation"]:
@@ -750,7 +1057,7 @@ def replay(ctx, obj):
 
 MANIFEST = {
     "category": "proof",
-    "technique": "Lean 4 theorems about formula lines and loop structure regenerated from the AST of coresymbolic.py: spec-match of every line over an abstract differential field (all n), Riemann/Ricci index symmetries proven from the derivation axioms, and a generic naturality lemma lifting a kernel-decided symbolic fill check (n = 2,3,4) to every oracle with the true symmetries",
-    "text": "Proof for every metric (symmetric, invertible, any coordinate dependence), both values of simplify and both cache states of Riemann_uddd, n = 2,3,4: each formula line of AurelCoreSymbolic (Christoffel symbols of both kinds, Riemann uddd, Riemann fully lowered in its cached and direct branches, Ricci in its cached and direct branches, Ricci scalar, Einstein) is regenerated from the source and proven equal to the textbook expression for symbolic dimension n over any differential field of characteristic 0; the textbook tensors are proven to have exactly the index symmetries the fill loops exploit; the loop nests with their skip conditions, done arrays and signed partner assignments are extracted from the AST, executed by a hand-written interpreter, and proven (kernel-evaluated finite check + naturality lemma) to reproduce every oracle having only those symmetries; composed: what the class stores for each key equals the textbook tensor independently of the simplify flag and of the request order. The interpreter is tied to the real class by index-by-index correspondence on identity-tagged inputs and on request histories; an independent jet-based rational oracle checks the real code on random non-diagonal metrics.",
-    "note": "Trusted: Lean kernel + propext/Classical.choice/Quot.sound; the AST translator; the hand-written fill interpreter (validated by correspondence: 8 branches x n=2,3(,4) x 2 flags on tagged inputs; >100 request histories incl. all 90 ordered 2-key prefixes); sympy's inv/det/diff and the assumption that sp.simplify preserves the value of an expression; Float 0.5 treated as exact 1/2. gup and gdet are delegated to sympy and only checked by the oracle. fill_is_identity is decided for n = 2,3,4 only.",
+    "technique": "Lean 4 theorems about formula lines, loop structure and method table regenerated from the AST of coresymbolic.py: spec-match of every line over an abstract differential field (all n); Riemann/Ricci index symmetries from the derivation axioms; the fill loops verified for EVERY dimension n by a Hoare logic for the loop interpreter (induction over range(n) for each loop of the nest; state invariant 'every position is correct or still zero, every done position is correct') in addition to the kernel-decided finite check for n = 2,3,4; request-order independence over all finite request histories by instantiating the generic cache theorem of C01 with the regenerated table and PROVING branch coherence; gup/gdet reduced to the single equation gdown*gup = 1 (one-sided inverse => IsMetric, uniqueness, Cramer, det identities via Mathlib)",
+    "text": "Proof for every metric (symmetric, gdown*gup = 1, any coordinate dependence), EVERY dimension n, both values of simplify and every request history: each formula line of AurelCoreSymbolic (Christoffel symbols of both kinds, Riemann uddd, Riemann fully lowered in its cached and direct branches, Ricci in its cached and direct branches, Ricci scalar, Einstein) is regenerated from the source and proven equal to the textbook expression over any differential field of characteristic 0; the textbook tensors are proven to have exactly the index symmetries the fill loops exploit; the loop nests with their skip conditions, done arrays and signed partner assignments are extracted from the AST, executed by a hand-written interpreter, and proven to reproduce every oracle having only those symmetries - for n = 2,3,4 by a kernel-evaluated check plus naturality, and for ALL n by loop-invariant induction (fill_all_n_*, symbolic_core_correct_all_n). Request order: the `__getitem__` cache with its `'Riemann_uddd' in self.data` shortcut branches is an instance of C01's table model built from the regenerated method table; branch coherence (Riemann_down cached vs direct, Ricci_down cached vs direct, Einstein from Ricci and RicciS, ...) is a theorem (branch_coherence), hence every finite history of requests returns the textbook value of each requested key (request_history_transparent, request_order_and_flag_independent), and histories of the ten keys never raise (history_never_raises, every_history_returns_textbook). simplify: every generated line is flag-independent for ARBITRARY arguments assuming only that sp.simplify preserves values (lines_flag_independent); with simplify=False nothing at all is assumed about sp.simplify (symbolic_core_correct_unsimplified, gamma_half_outside_flag for the 0.5 factor of 7535a87); all seven stored keys are flag- and cache-state-independent for every n. gup/gdet: everything follows from g symmetric and gdown*gup = 1 (metric_of_right_inverse, gup_determined: unique, = matrix inverse, symmetric, two-sided; gdet_identities: Leibniz determinant non-zero, det g det gup = 1, Cramer; gdet_jacobi: d_c det g = det g g^{ik} d_c g_{ki} and Gamma^a_{ab} = d_b det g / (2 det g) for any abstract derivation). The models are tied to the real class by index-by-index correspondence on identity-tagged inputs, on >100 request histories (branch taken, completion order, provenance of every returned value, every stored array) and on several live objects of different dimension/flag/metric with randomly interleaved requests in one process (shared-state regressions); an independent jet-based rational oracle checks the real code on random non-diagonal metrics, on interleaved live objects, and checks gdown*gup = 1 and gdet = Leibniz sum symbolically (incl. non-diagonal 4-D metrics).",
+    "note": "Trusted: Lean kernel + propext/Classical.choice/Quot.sound; the AST translator; the hand-written fill interpreter, table shapes and return-site wiring (validated by correspondence: 8 branches x n=2,3(,4) x 2 flags on tagged inputs; >100 request histories incl. all 90 ordered 2-key prefixes with provenance; interleaved live objects); sympy's diff, the equation gdown*gup = 1 and gdet = Leibniz determinant (both re-checked symbolically by the oracle on every metric it runs), and - for simplify=True only - that sp.simplify preserves the value of an expression; Float 0.5 treated as exact 1/2. NOT proven: anything about sympy's own algorithms (inv/det/diff/simplify), singular metrics (Matrix.inv raises), the default metrics of gdown() other than as particular inputs.",
 }
